@@ -59,7 +59,8 @@ class C12(Prop):
     table_groups = ['ChainAddr']
     theorems = ['BtcVerif.C12.' + t for t in (
         'select_step', 'select_inv', 'selected_mem', 'roundtrip', 'roundtrip_after_history', 'refuse_total',
-        'noncanonical_p2pkh', 'bare_pubkey', 'unsupported_witver_refused', 'cross_chain_refused_base58',
+        'noncanonical_p2pkh', 'bare_pubkey', 'bare_pubkey_dispatch', 'bare_pubkey_flag_off', 'unsupported_witver_refused',
+        'hnc_of_nonbase58_char', 'cross_chain_refused_bech32_of_char', 'cross_chain_refused_base58',
         'cross_chain_refused_bech32', 'roundtrip_sha256d', 'cross_chain_refused_base58_sha256d')]
     anchors = [('bitcoin/wallet.py', 'CBitcoinAddress.__new__'), ('bitcoin/wallet.py', 'CBitcoinAddress.from_scriptPubKey'),
                ('bitcoin/wallet.py', 'CBech32BitcoinAddress.from_bytes'),
@@ -80,7 +81,8 @@ class C12(Prop):
                     'btcmodel executable = compiled Model.* (Lean compiler); Crypto.hash256/hash160 validated against '
                     'hashlib / the library on every case',
                     'module globals bitcoin.params / bitcoin.core.coreparams modelled as an explicit state pair']
-    assumptions = ['bitcoin.core.Hash returns at least 4 bytes',
+    assumptions = ['bitcoin.core.Hash returns at least 4 bytes (discharged for SHA-256d: roundtrip_sha256d, '
+                   'cross_chain_refused_base58_sha256d via Crypto.hash256_length)',
                    'cross-chain refusal of bech32 text by the base58 reader: its 32-bit checksum does not match '
                    '(explicit hypothesis of cross_chain_refused_bech32)',
                    'the per-chain prefixes are those of the library parameter table (tied by T1 Tables.ChainAddr)']
@@ -436,14 +438,28 @@ class C12(Prop):
         return c.line
 
     def signature(self, c, io, mo):
-        if c['op'] in ('c12.p2pkh', 'c12.fromspk', 'c12.stale') and io.startswith('P2PKH,') and mo.startswith('P2PKH,'):
-            # bare uncompressed pubkey: <65-byte key> CHECKSIG after canonicalisation of the pushes
-            try:
-                s = bytes(self.SC.CScript(tuple(self.SC.CScript(bytes.fromhex(c['args'][1])))))
-            except Exception:  # noqa: BLE001
-                s = b''
-            if len(s) == 67 and s[0] == 0x41 and s[66] == 0xac:
-                return 'D18-bare-uncompressed-pubkey-hashes-64-bytes'
+        if c['op'] in ('c12.p2pkh', 'c12.fromspk', 'c12.stale'):
+            # D18 (known): bare UNCOMPRESSED pubkey, <65-byte key> CHECKSIG after canonicalisation of the pushes.
+            # Recognised only when the implementation's outcome is, field by field (class, version byte, payload =
+            # hash160 of the 64-byte slice, text, to_scriptPubKey), exactly what the known defect produces, and the
+            # model's outcome is the conforming one (hash160 of the whole key).  Anything else on such a script
+            # is an anonymous divergence, i.e. a VIOLATION.
+            a = c['args']
+            if c['op'] == 'c12.p2pkh':
+                q = (a[0], a[1], a[2], '') if a[3] == '1' else None
+            elif c['op'] == 'c12.fromspk':
+                q = (a[0], a[1], '1', '')
+            else:
+                q = (a[0], a[1], '1', a[2])
+            if q is not None:
+                try:
+                    exp = self.ask(['\t'.join(('c12.bare.expect',) + q)])[0]
+                except Exception:  # noqa: BLE001
+                    exp = 'n/a'
+                if ' ;; ' in exp:
+                    coded, conforming = exp.split(' ;; ')
+                    if io == coded and mo == conforming and coded != conforming:
+                        return 'D18-bare-uncompressed-pubkey-hashes-64-bytes'
         if c['op'] == 'c12.parse' and io == 'err:py:AssertionError' and mo == 'err:addrerr':
             return 'D9-bech32-v1-assertion'
         return None
